@@ -5,12 +5,13 @@
 (* specification accepts after the prefix "#..meta: length=3, x=1" - every *)
 (* other string over the alphabet is, by the specification, rejected.      *)
 EXTENDS Integers, Sequences, TLC, Json, Header
-CONSTANTS N
+CONSTANTS N, Which     \* Which = 1: after a complete option "x=1"; 2: in value position after "x="
 VARIABLES s, d
 Alphabet == {97, 90, 55, 95, 45, 46, 47, 61, 44, 32, 9, 35, 58, 43, 195}
 (* "#..meta: length=3, x=1" *)
 Prefix == <<35,46,46,109,101,116,97,58,32,108,101,110,103,116,104,61,51,44,32,120,61,49>>
-Init == s = <<>> /\ d = DRun(D0, Prefix, 1)
+Prefix2 == SubSeq(Prefix, 1, Len(Prefix) - 1)
+Init == s = <<>> /\ d = DRun(D0, IF Which = 1 THEN Prefix ELSE Prefix2, 1)
 Next == \E b \in Alphabet :
           /\ Len(s) < N /\ DStep(d, b).q # "dead"
           /\ s' = Append(s, b) /\ d' = DStep(d, b)
